@@ -490,6 +490,8 @@ def c16(ctx):
     files = directed_traces(ctx, "wrapdiff", 8 if ctx.quick else 16, {"VF_N": 3 if ctx.quick else 40, "VF_NBASES": 4 if ctx.quick else 10})
     files += xfer_traces(ctx, ["wrap"], 48, 2000)
     files += directed_traces(ctx, "prdir", 8, {"VF_FULL": "0" if ctx.quick else "1", "VF_ONLY": "wrap"})
+    # blocking writes that time out holding the last SSN / MID before the wrap: the roll-back crosses it
+    files += directed_traces(ctx, "api", 8, {"VF_ONLY": "blockwrite"})
     # every property monitor must hold in runs whose sequence numbers cross their wraps
     ctx.validate(files, claim_all="C16_AtWrap")
     ctx.notes.append("wrap invisibility is decided by validating runs at wrap bases (TSN) and with SSN/MID counters preset below their wraps, "
